@@ -78,6 +78,31 @@ fn get_array_like_element(obj: &Gc<JsObject>, index: u32) -> JsValue {
         .unwrap_or(JsValue::Undefined)
 }
 
+/// The indices in `start..end` at which `has_array_like_element` can be true, ascending.
+/// For a real array or a short range that is the range itself; for an array-like object
+/// with a huge `length` only its own index keys are visited, so that
+/// `Array.prototype.indexOf.call({length: 2 ** 32 - 2}, x)` does not spin for minutes.
+fn present_indices(obj: &Gc<JsObject>, start: u32, end: u32) -> Vec<u32> {
+    const DENSE_LIMIT: u32 = 1 << 16;
+    if start >= end {
+        return Vec::new();
+    }
+    let borrowed = obj.borrow();
+    if matches!(borrowed.exotic, ExoticObject::Array { .. }) || end - start <= DENSE_LIMIT {
+        return (start..end).collect();
+    }
+    let mut indices: Vec<u32> = borrowed
+        .properties
+        .iter()
+        .filter_map(|(k, _)| match k {
+            PropertyKey::Index(i) if *i >= start && *i < end => Some(*i),
+            _ => None,
+        })
+        .collect();
+    indices.sort_unstable();
+    indices
+}
+
 /// Check if an array-like object has an element at the given index.
 /// Works on both real arrays and array-like objects.
 fn has_array_like_element(obj: &Gc<JsObject>, index: u32) -> bool {
@@ -408,7 +433,7 @@ pub fn array_filter(
     let length = get_array_like_length(interp, &arr)?;
 
     let mut result = Vec::new();
-    for i in 0..length {
+    for i in present_indices(&arr, 0 as u32, length as u32) {
         if has_array_like_element(&arr, i) {
             let elem = get_array_like_element(&arr, i);
 
@@ -463,7 +488,7 @@ pub fn array_foreach(
     // Use array-like length with full ToLength coercion (works on both arrays and array-like objects)
     let length = get_array_like_length(interp, &arr)?;
 
-    for i in 0..length {
+    for i in present_indices(&arr, 0 as u32, length as u32) {
         if has_array_like_element(&arr, i) {
             let elem = get_array_like_element(&arr, i);
 
@@ -515,7 +540,7 @@ pub fn array_reduce(
         (first, 1)
     };
 
-    for i in start_index..length {
+    for i in present_indices(&arr, start_index as u32, length as u32) {
         if has_array_like_element(&arr, i) {
             let elem = get_array_like_element(&arr, i);
 
@@ -656,7 +681,7 @@ pub fn array_index_of(
         from_index.min(length) as u32
     };
 
-    for i in start..(length as u32) {
+    for i in present_indices(&arr, start as u32, length as u32) {
         if has_array_like_element(&arr, i) {
             let elem = get_array_like_element(&arr, i);
 
@@ -692,7 +717,7 @@ pub fn array_includes(
         from_index.min(length) as u32
     };
 
-    for i in start..(length as u32) {
+    for i in present_indices(&arr, start as u32, length as u32) {
         if has_array_like_element(&arr, i) {
             let elem = get_array_like_element(&arr, i);
 
@@ -917,7 +942,7 @@ pub fn array_every(
     // Use array-like length with full ToLength coercion (works on both arrays and array-like objects)
     let length = get_array_like_length(interp, &arr)?;
 
-    for i in 0..length {
+    for i in present_indices(&arr, 0 as u32, length as u32) {
         if has_array_like_element(&arr, i) {
             let elem = get_array_like_element(&arr, i);
 
@@ -967,7 +992,7 @@ pub fn array_some(
     // Use array-like length with full ToLength coercion (works on both arrays and array-like objects)
     let length = get_array_like_length(interp, &arr)?;
 
-    for i in 0..length {
+    for i in present_indices(&arr, 0 as u32, length as u32) {
         if has_array_like_element(&arr, i) {
             let elem = get_array_like_element(&arr, i);
 
@@ -1458,6 +1483,10 @@ pub fn array_from(
                     } else {
                         elem
                     };
+                    // the mapped value is reachable from nothing else while more user code runs
+                    if let JsValue::Object(o) = &mapped {
+                        result_guard.guard(o.cheap_clone());
+                    }
                     elements.push(mapped);
                 }
             } else {
@@ -1535,6 +1564,10 @@ pub fn array_from(
                                     } else {
                                         elem
                                     };
+                                    // the mapped value is reachable from nothing else while more user code runs
+                                    if let JsValue::Object(o) = &mapped {
+                                        result_guard.guard(o.cheap_clone());
+                                    }
                                     elements.push(mapped);
                                     i += 1;
                                 } else {
@@ -1582,6 +1615,7 @@ pub fn array_from(
                             }
                             _ => elem,
                         };
+                        // the mapped value is reachable from nothing else while more user code runs
                         if let JsValue::Object(o) = &mapped {
                             result_guard.guard(o.cheap_clone());
                         }
@@ -1610,6 +1644,10 @@ pub fn array_from(
                 } else {
                     elem
                 };
+                // the mapped value is reachable from nothing else while more user code runs
+                if let JsValue::Object(o) = &mapped {
+                    result_guard.guard(o.cheap_clone());
+                }
                 elements.push(mapped);
             }
         }
